@@ -113,12 +113,12 @@ package jen
 
 //@ func (*Statement).render [C01,C13]
 //@   implements Code.render
-//@   unfold R RS null
+//@   unfold R RS null treeOK stable wfImp
 //@   loop 1 invariant rs: RS(*s, $i, first, s, Fof(f), StOf(w, f)) == RS(*s, 0, true, s, Fof(f), old(StOf(w, f)))
 //@   loop 1 invariant file: regpre(f) && Fof(f) == old(Fof(f)) && stable(old(mapof(f.imports)), mapof(f.imports))
 
 //@ func (*Group).renderItems [C01,C13,C03,C06,C04]
-//@   unfold RI null
+//@   unfold RI null treeOK stable wfImp
 //@   requires g != nil
 //@   requires file: regpre(f)
 //@   free requires tree: treeOK()
@@ -133,17 +133,20 @@ package jen
 
 //@ func (*Group).render [C01,C13,C08,C09,C15]
 //@   implements Code.render
-//@   unfold R
+//@   unfold R stable wfImp
 
 // ---- file assembly ----
 
+//@ func Comment [C15,C14,C02,C10,C19,C04,C03,C07]
+//@   ensures [C15,C14] one: fresh(result) && len(*result) == 1 && (*result)[0] == C_comment(mk_comment(str))
+
 //@ func (*File).renderImports [C03,C04,C07,C19,C15,C02]
-//@   unfold ImportLines CommentLines R:4 RS:4 null:4
+//@   unfold CommentLines stable wfImp
 //@   requires file: regpre(f)
 //@   requires source != 0
 //@   free requires tree: treeOK()
 //@   modifies written[source], nwrites[source], failed[source], mapof(f.imports)
-//@   ensures [C03,C04,C07,C19] block: err == nil ==> written[source] == old(written[source]) ++ ImportBlock(mapof(f.imports), f.cgoPreamble)
+//@   ensures [C03,C04,C07,C19] unfold(ImportBlock MainBlockText:2) block: err == nil ==> written[source] == old(written[source]) ++ ImportBlock(mapof(f.imports), f.cgoPreamble)
 //@   ensures [C04,C08] same: err == nil ==> mapof(f.imports) == old(mapof(f.imports))
 //@   ensures [C08] stable: stable(old(mapof(f.imports)), mapof(f.imports)) && regpre(f) && Fof(f) == old(Fof(f))
 //@   loop 1 invariant dom: forall q string :: { mapof(filtered).dom[q] } has(filtered, q) == ($m.dom[q] && $idx[q] < $i && !(q == "C" && separateCgo))
@@ -151,16 +154,25 @@ package jen
 //@   loop 1 invariant card: len(filtered) == $i - (($m.dom["C"] && $idx["C"] < $i && separateCgo) ? 1 : 0)
 //@   loop 1 invariant imps: mapof(f.imports) == old(mapof(f.imports)) && mapof(f.hints) == old(mapof(f.hints)) && filtered > old(alloc)
 //@   loop 1 invariant misc: filtered != nil && separateCgo == (len(f.cgoPreamble) > 0) && $m == old(mapof(f.imports)) && written[source] == old(written[source])
+//@   loop 1 invariant exit domeq: forall q string :: { mapof(filtered).dom[q] } mapof(filtered).dom[q] == mainBlock(old(mapof(f.imports)), separateCgo).dom[q]
+//@   loop 1 invariant exit valeq: forall q string :: { mapof(filtered).val[q] } mapof(filtered).val[q] == mainBlock(old(mapof(f.imports)), separateCgo).val[q]
+//@   loop 1 invariant exit cardeq: mapof(filtered).card == mainBlock(old(mapof(f.imports)), separateCgo).card
+//@   loop 1 invariant exit fm: mapof(filtered) == mainBlock(old(mapof(f.imports)), separateCgo)
 //@   loop 2 invariant one: ($i == 0 && written[source] == old(written[source])) || ($i == 1 && written[source] == old(written[source]) ++ "import " ++ Entry($m, $ks[0]) ++ "\n\n")
-//@   loop 2 invariant fm: $m == mainBlock(old(mapof(f.imports)), separateCgo) && $n == 1
+//@   loop 2 invariant fm: $m == mainBlock(old(mapof(f.imports)), separateCgo) && $n == 1 && finiteImp($m)
+//@   loop 2 invariant only: sortedIndexOf($m, $ks[0]) == 0 && sortedKeysOf($m)[0] == $ks[0]
 //@   loop 3 invariant collect: len(paths) == $i && (forall j int :: { paths[j] } (0 <= j && j < $i) ==> paths[j] == $ks[j])
 //@   loop 3 invariant fresh: paths.arr > old(alloc) && filtered > old(alloc)
 //@   loop 3 invariant fm: $m == mainBlock(old(mapof(f.imports)), separateCgo) && mapof(filtered) == $m && written[source] == old(written[source]) ++ "import (\n"
+//@   loop 4 cut
+//@   loop 4 invariant bound: $i <= len(paths) && len(filtered) > 1 && separateCgo == (len(f.cgoPreamble) > 0) && filtered > old(alloc) && filtered != f.imports
+//@   loop 4 invariant imps: mapof(f.imports) == old(mapof(f.imports)) && Fof(f) == old(Fof(f)) && cells(f.cgoPreamble) == old(cells(f.cgoPreamble))
 //@   loop 4 invariant fm: mapof(filtered) == mainBlock(old(mapof(f.imports)), separateCgo) && len(paths) == len(filtered) && finiteImp(mapof(filtered))
-//@   loop 4 invariant members: forall j int :: { paths[j] } (0 <= j && j < len(paths)) ==> has(filtered, paths[j])
-//@   loop 4 invariant ascending: forall i int, j int :: { paths[i], paths[j] } (0 <= i && i < j && j < len(paths)) ==> paths[i] < paths[j]
-//@   loop 4 invariant marker: isSortedEnum(cells(paths), mapof(filtered))
-//@   loop 4 invariant sorted: forall j int :: { paths[j] } (0 <= j && j < len(paths)) ==> paths[j] == sortedKeysOf(mapof(filtered))[j]
-//@   loop 4 invariant lines: written[source] == old(written[source]) ++ "import (\n" ++ ImportLines(sortedKeysOf(mapof(filtered)), mapof(filtered), $i)
-//@   loop 5 invariant imps: mapof(f.imports) == old(mapof(f.imports)) && Fof(f) == old(Fof(f))
-//@   loop 5 invariant pre: written[source] == old(written[source]) ++ MainBlockText(mainBlock(old(mapof(f.imports)), len(f.cgoPreamble) > 0)) ++ CommentLines(f.cgoPreamble, $i)
+//@   loop 4 invariant entry members: forall j int :: { paths[j] } (0 <= j && j < len(paths)) ==> has(filtered, paths[j])
+//@   loop 4 invariant entry ascending: forall i int, j int :: { paths[i], paths[j] } (0 <= i && i < j && j < len(paths)) ==> paths[i] < paths[j]
+//@   loop 4 invariant entry marker: isSortedEnum(cells(paths), mapof(filtered))
+//@   loop 4 invariant local sorted: forall j int :: { paths[j] } (0 <= j && j < len(paths)) ==> paths[j] == sortedKeysOf(mapof(filtered))[j]
+//@   loop 4 invariant unfold(ImportLines) lines: written[source] == old(written[source]) ++ "import (\n" ++ ImportLines(sortedKeysOf(mapof(filtered)), mapof(filtered), $i)
+//@   loop 5 invariant imps: mapof(f.imports) == old(mapof(f.imports)) && Fof(f) == old(Fof(f)) && $i <= len(f.cgoPreamble) && cells(f.cgoPreamble) == old(cells(f.cgoPreamble))
+//@   loop 5 invariant unfold(MainBlockText) main: atLoopEntry(written[source]) == old(written[source]) ++ MainBlockText(mainBlock(old(mapof(f.imports)), len(f.cgoPreamble) > 0))
+//@   loop 5 invariant pre: written[source] == atLoopEntry(written[source]) ++ CommentLines(f.cgoPreamble, $i)
